@@ -6,7 +6,9 @@ scalars (exact reals, decided for all values): every real-time increment d>=0, e
 s>=0, every assigned time value v.  Solver-enumerated: the kind of each operation of a
 history of length K.  Reference: an incrementally accumulated reading (ref += speed*d while
 started) -- a different formulation from the implementation's base/elapsed arithmetic; their
-equality is a nonlinear real-arithmetic obligation discharged by z3 on every path.
+equality is a nonlinear real-arithmetic obligation discharged by z3 on every path.  SynchronizedClock: a
+follower (and a follower of a follower) is read between steps, after queue(), after each step and by a listener
+at every meta-event during the step.
 """
 import itertools
 
